@@ -403,4 +403,453 @@ theorem IntSet.rangeIterMachine_collect {d : Domain} (hd : DomWF d) {s : IntSet}
     · simp only [hm, hc, if_false, Bool.false_eq_true]
       exact ⟨_, rfl, trivial, rfl, RangeIter.collect_eq d _ trivial⟩
 
+/-! ## (A) `struct Iter` -/
+
+/-! ### the direction-generic skip loop -/
+
+/-- `Iter::next` / `Iter::next_back` loop with the comparison abstracted: `lt index skip` means
+"`index` comes before `skip` in the direction of travel" -/
+def genLoop (lt : Nat → Nat → Bool) (opp : Option Nat) :
+    List Nat → List Nat → Option Nat → Option Nat × (List Nat × List Nat × Option Nat)
+  | [], sv, f => (none, ([], sv, f))
+  | index :: all, sv, none =>
+    if opp = some index then genLoop lt opp all sv none
+    else (some index, (all, sv, none))
+  | index :: all, sv, some skip =>
+    if lt index skip then (some index, (all, sv, some skip))
+    else
+      if lt skip index then genLoop lt opp (index :: all) sv.tail sv.head?
+      else genLoop lt opp all sv.tail sv.head?
+termination_by all sv f => (all.length, sv.length + (if f.isSome then 1 else 0))
+decreasing_by
+  · simp_wf; exact Prod.Lex.left _ _ (by omega)
+  · simp_wf
+    apply Prod.Lex.right
+    cases sv <;> simp
+  · simp_wf; exact Prod.Lex.left _ _ (by omega)
+
+theorem nextLoop_eq_genLoop (bwd : Option Nat) (all sv : List Nat) (f : Option Nat) :
+    Iter.nextLoop bwd all sv f = genLoop (fun a b => decide (a < b)) bwd all sv f := by
+  fun_induction Iter.nextLoop bwd all sv f <;> rw [genLoop]
+  case case5 ih =>
+    simp only [decide_eq_true_eq]
+    rw [if_neg (by omega), if_pos (by omega)]; exact ih
+  case case6 ih =>
+    simp only [decide_eq_true_eq]
+    rw [if_neg (by omega), if_neg (by omega)]; exact ih
+  all_goals simp_all
+
+theorem nextBackLoop_eq_genLoop (fwd : Option Nat) (all sv : List Nat) (b : Option Nat) :
+    Iter.nextBackLoop fwd all sv b = genLoop (fun a b => decide (a > b)) fwd all sv b := by
+  fun_induction Iter.nextBackLoop fwd all sv b <;> rw [genLoop]
+  case case5 ih =>
+    simp only [decide_eq_true_eq]
+    rw [if_neg (by omega), if_pos (by omega)]; exact ih
+  case case6 ih =>
+    simp only [decide_eq_true_eq]
+    rw [if_neg (by omega), if_neg (by omega)]; exact ih
+  all_goals simp_all
+
+
+/-- `lt` is a strict total order (as a `Bool` relation) -/
+structure STO (lt : Nat → Nat → Bool) : Prop where
+  irrefl : ∀ a, lt a a = false
+  trans : ∀ a b c, lt a b = true → lt b c = true → lt a c = true
+  tri : ∀ a b, lt a b = false → lt b a = false → a = b
+
+theorem sto_lt : STO (fun a b => decide (a < b)) :=
+  ⟨by simp, by simp; omega, by simp; omega⟩
+theorem sto_gt : STO (fun a b => decide (a > b)) :=
+  ⟨by simp, by simp; omega, by simp; omega⟩
+
+/-- the values still to be skipped, in the direction of travel: the pending skip of this
+direction, the unread `set_values`, the pending skip of the opposite direction -/
+def pend (f : Option Nat) (sv : List Nat) (opp : Option Nat) : List Nat :=
+  f.toList ++ (sv ++ opp.toList)
+
+abbrev PW (lt : Nat → Nat → Bool) (l : List Nat) : Prop := l.Pairwise (fun a b => lt a b = true)
+
+/-- the values of `all` that are not to be skipped -/
+def live (P all : List Nat) : List Nat := all.filter (fun x => decide (x ∉ P))
+
+theorem live_cons_mem {P : List Nat} {x : Nat} (all : List Nat) (h : x ∈ P) :
+    live P (x :: all) = live P all := by simp [live, h]
+theorem live_cons_nmem {P : List Nat} {x : Nat} (all : List Nat) (h : x ∉ P) :
+    live P (x :: all) = x :: live P all := by simp [live, h]
+
+theorem live_drop_head {lt : Nat → Nat → Bool} (h : STO lt) {skip : Nat} {P all : List Nat}
+    (hlt : ∀ x ∈ all, lt skip x = true) : live (skip :: P) all = live P all := by
+  unfold live
+  apply List.filter_congr
+  intro x hx
+  have : x ≠ skip := by
+    intro he; subst he
+    have := hlt x hx; rw [h.irrefl] at this; exact absurd this (by simp)
+  simp [this]
+
+theorem head_tail_toList (sv : List Nat) : sv.head?.toList ++ sv.tail = sv := by
+  cases sv <;> rfl
+
+theorem pend_refill (sv : List Nat) (opp : Option Nat) :
+    pend sv.head? sv.tail opp = sv ++ opp.toList := by
+  unfold pend; rw [← List.append_assoc, head_tail_toList]
+
+theorem genLoop_spec {lt : Nat → Nat → Bool} (h : STO lt) (opp : Option Nat)
+    (all sv : List Nat) (f : Option Nat)
+    (hall : PW lt all) (hP : PW lt (pend f sv opp)) (hf : f = none → sv = []) :
+    (genLoop lt opp all sv f).1 = (live (pend f sv opp) all).head? ∧
+    live (pend (genLoop lt opp all sv f).2.2.2 (genLoop lt opp all sv f).2.2.1 opp)
+      (genLoop lt opp all sv f).2.1 = (live (pend f sv opp) all).tail ∧
+    PW lt (genLoop lt opp all sv f).2.1 ∧
+    PW lt (pend (genLoop lt opp all sv f).2.2.2 (genLoop lt opp all sv f).2.2.1 opp) ∧
+    ((genLoop lt opp all sv f).2.2.2 = none → (genLoop lt opp all sv f).2.2.1 = []) ∧
+    (sv = [] → (genLoop lt opp all sv f).2.2.1 = []) := by
+  fun_induction genLoop lt opp all sv f
+  case case1 sv f =>
+    exact ⟨rfl, rfl, hall, hP, hf, id⟩
+  case case2 index all sv hopp ih =>
+    have hsv := hf rfl
+    have hmem : index ∈ pend none sv opp := by simp [pend, hopp]
+    rw [live_cons_mem all hmem]
+    exact ih (List.Pairwise.of_cons hall) hP hf
+  case case3 index all sv hopp =>
+    have hsv := hf rfl
+    have hmem : index ∉ pend none sv opp := by
+      subst hsv
+      cases opp with
+      | none => simp [pend]
+      | some o => simp [pend]; intro he; exact hopp (by rw [he])
+    rw [live_cons_nmem all hmem]
+    exact ⟨rfl, rfl, List.Pairwise.of_cons hall, hP, hf, id⟩
+  case case4 index all sv skip hlt =>
+    have hmem : index ∉ pend (some skip) sv opp := by
+      intro hm
+      have hP' : PW lt (skip :: (sv ++ opp.toList)) := hP
+      replace hP' := List.pairwise_cons.1 hP'
+      have hm' : index ∈ skip :: (sv ++ opp.toList) := hm
+      rcases List.mem_cons.1 hm' with he | hm''
+      · subst he; rw [h.irrefl] at hlt; exact absurd hlt (by simp)
+      · have := h.trans _ _ _ hlt (hP'.1 index hm'')
+        rw [h.irrefl] at this; exact absurd this (by simp)
+    rw [live_cons_nmem all hmem]
+    exact ⟨rfl, rfl, List.Pairwise.of_cons hall, hP, hf, id⟩
+  case case5 index all sv skip hnlt hgt ih =>
+    have hP' : PW lt (skip :: (sv ++ opp.toList)) := hP
+    have hP2 : PW lt (pend sv.head? sv.tail opp) := by
+      rw [pend_refill]; exact List.Pairwise.of_cons hP'
+    have hf2 : sv.head? = none → sv.tail = [] := by cases sv <;> simp
+    have ih' := ih hall hP2 hf2
+    have hdrop : live (pend (some skip) sv opp) (index :: all) =
+        live (pend sv.head? sv.tail opp) (index :: all) := by
+      rw [pend_refill]
+      apply live_drop_head h
+      intro x hx
+      rcases List.mem_cons.1 hx with he | hx'
+      · subst he; exact hgt
+      · exact h.trans _ _ _ hgt ((List.pairwise_cons.1 hall).1 x hx')
+    rw [hdrop]
+    exact ⟨ih'.1, ih'.2.1, ih'.2.2.1, ih'.2.2.2.1, ih'.2.2.2.2.1,
+      fun hs => ih'.2.2.2.2.2 (by rw [hs]; rfl)⟩
+  case case6 index all sv skip hnlt hngt ih =>
+    have heq : index = skip := h.tri _ _ (by simpa using hnlt) (by simpa using hngt)
+    subst heq
+    have hP' : PW lt (index :: (sv ++ opp.toList)) := hP
+    have hP2 : PW lt (pend sv.head? sv.tail opp) := by
+      rw [pend_refill]; exact List.Pairwise.of_cons hP'
+    have hf2 : sv.head? = none → sv.tail = [] := by cases sv <;> simp
+    have ih' := ih (List.Pairwise.of_cons hall) hP2 hf2
+    have hmem : index ∈ pend (some index) sv opp := by simp [pend]
+    have hdrop : live (pend (some index) sv opp) all = live (pend sv.head? sv.tail opp) all := by
+      rw [pend_refill]
+      exact live_drop_head h (List.pairwise_cons.1 hall).1
+    rw [live_cons_mem all hmem, hdrop]
+    exact ⟨ih'.1, ih'.2.1, ih'.2.2.1, ih'.2.2.2.1, ih'.2.2.2.2.1,
+      fun hs => ih'.2.2.2.2.2 (by rw [hs]; rfl)⟩
+
+
+/-! ### the simulation relation: machine state ⇄ the members it still owes -/
+
+theorem pw_lt_iff (l : List Nat) : PW (fun a b => decide (a < b)) l ↔ Asc l := by
+  simp only [PW, Asc, decide_eq_true_eq]
+
+theorem pw_gt_reverse_iff (l : List Nat) : PW (fun a b => decide (a > b)) l.reverse ↔ Asc l := by
+  simp only [PW, Asc, decide_eq_true_eq, List.pairwise_reverse]
+
+theorem option_toList_reverse (o : Option Nat) : o.toList.reverse = o.toList := by
+  cases o <;> rfl
+
+theorem pend_reverse (f : Option Nat) (sv : List Nat) (b : Option Nat) :
+    pend b sv.reverse f = (pend f sv b).reverse := by
+  simp [pend, option_toList_reverse]
+
+theorem live_reverse (P all : List Nat) : live P.reverse all.reverse = (live P all).reverse := by
+  simp [live, List.filter_reverse]
+
+/-- forward-only simulation: in exclusive mode the remaining domain values and the pending skips
+are ascending, the forward skip slot is only empty when `set_values` is, and the domain values
+that are not pending skips are exactly `L`; in inclusive mode `set_values = L` -/
+def Iter.SimF (it : Iter) (L : List Nat) : Prop :=
+  match it.allValues with
+  | none => it.setValues = L
+  | some all => Asc all ∧ Asc (pend it.nextSkippedForward it.setValues it.nextSkippedBackward) ∧
+      (it.nextSkippedForward = none → it.setValues = []) ∧
+      live (pend it.nextSkippedForward it.setValues it.nextSkippedBackward) all = L
+
+/-- two-sided simulation: additionally the backward skip slot is only empty when `set_values` is -/
+def Iter.Sim (it : Iter) (L : List Nat) : Prop :=
+  it.SimF L ∧ (it.allValues.isSome → it.nextSkippedBackward = none → it.setValues = [])
+
+theorem Iter.next_simF {it : Iter} {L : List Nat} (h : it.SimF L) :
+    it.next.1 = L.head? ∧ it.next.2.SimF L.tail ∧
+    it.next.2.allValues.isSome = it.allValues.isSome ∧
+    it.next.2.nextSkippedBackward = it.nextSkippedBackward ∧
+    (it.setValues = [] → it.next.2.setValues = []) := by
+  unfold Iter.SimF at h
+  unfold Iter.next Iter.SimF
+  cases ha : it.allValues with
+  | none =>
+    rw [ha] at h
+    simp only at h ⊢
+    subst h
+    simp [popFront]
+    intro h; rw [h]; rfl
+  | some all =>
+    rw [ha] at h
+    simp only at h ⊢
+    obtain ⟨h1, h2, h3, h4⟩ := h
+    rw [nextLoop_eq_genLoop]
+    have := genLoop_spec sto_lt it.nextSkippedBackward all it.setValues it.nextSkippedForward
+      ((pw_lt_iff _).2 h1) ((pw_lt_iff _).2 h2) h3
+    obtain ⟨g1, g2, g3, g4, g5, g6⟩ := this
+    rw [h4] at g1 g2
+    exact ⟨g1, ⟨(pw_lt_iff _).1 g3, (pw_lt_iff _).1 g4, g5, g2⟩, by simp, by simp, g6⟩
+
+theorem Iter.next_sim {it : Iter} {L : List Nat} (h : it.Sim L) :
+    it.next.1 = L.head? ∧ it.next.2.Sim L.tail := by
+  obtain ⟨h1, h2, h3, h4, h5⟩ := Iter.next_simF h.1
+  refine ⟨h1, h2, ?_⟩
+  rw [h3, h4]
+  exact fun ha hb => h5 (h.2 ha hb)
+
+theorem Iter.nextBack_sim {it : Iter} {L : List Nat} (h : it.Sim L) :
+    it.nextBack.1 = L.getLast? ∧ it.nextBack.2.Sim L.dropLast := by
+  obtain ⟨h, hb⟩ := h
+  unfold Iter.SimF at h
+  unfold Iter.nextBack Iter.Sim Iter.SimF
+  cases ha : it.allValues with
+  | none =>
+    rw [ha] at h
+    simp only at h ⊢
+    subst h
+    simp [popBack]
+  | some all =>
+    rw [ha] at h hb
+    simp only at h ⊢
+    obtain ⟨h1, h2, h3, h4⟩ := h
+    rw [nextBackLoop_eq_genLoop]
+    have hb' : it.nextSkippedBackward = none → it.setValues.reverse = [] := by
+      intro hn; rw [hb rfl hn]; rfl
+    have := genLoop_spec sto_gt it.nextSkippedForward all.reverse it.setValues.reverse
+      it.nextSkippedBackward ((pw_gt_reverse_iff _).2 h1)
+      (by rw [pend_reverse]; exact (pw_gt_reverse_iff _).2 h2) hb'
+    obtain ⟨g1, g2, g3, g4, g5, g6⟩ := this
+    rw [pend_reverse, live_reverse, h4] at g1 g2
+    refine ⟨by rw [g1, List.head?_reverse], ⟨?_, ?_, ?_, ?_⟩, ?_⟩
+    · rw [← pw_gt_reverse_iff, List.reverse_reverse]; exact g3
+    · rw [← pw_gt_reverse_iff, ← pend_reverse, List.reverse_reverse]; exact g4
+    · intro hn; rw [g6 (by rw [h3 hn]; rfl)]; rfl
+    · have := congrArg List.reverse g2
+      rw [← live_reverse, ← pend_reverse] at this
+      rw [this, List.tail_reverse, List.reverse_reverse]
+    · intro _ hn; rw [g5 hn]; rfl
+
+
+/-! ### constructors establish the simulation -/
+
+theorem dropLast_append_of_getLast? {l : List Nat} {x : Nat} (h : l.getLast? = some x) :
+    l.dropLast ++ [x] = l := by
+  obtain ⟨ys, rfl⟩ := List.getLast?_eq_some_iff.1 h
+  simp
+
+theorem dropLast_append_getLast?_toList (l : List Nat) : l.dropLast ++ l.getLast?.toList = l := by
+  cases hl : l.getLast? with
+  | none => rw [List.getLast?_eq_none_iff] at hl; subst hl; rfl
+  | some x =>
+    simp only [Option.toList_some]
+    exact dropLast_append_of_getLast? hl
+
+theorem pend_new (S : List Nat) : pend S.head? S.tail none = S := by
+  unfold pend; simp [head_tail_toList]
+
+theorem pend_newBidirectional (S : List Nat) :
+    pend S.head? S.tail.dropLast S.tail.getLast? = S := by
+  unfold pend
+  rw [dropLast_append_getLast?_toList, head_tail_toList]
+
+/-- `Iter::new(S, Some(D))` owes the values of `D` that are not in `S` -/
+theorem Iter.new_simF {S D : List Nat} (hS : Asc S) (hD : Asc D) :
+    (Iter.new S (some D)).SimF (D.filter (fun x => decide (x ∉ S))) := by
+  simp only [Iter.new, Iter.SimF, popFront, pend_new]
+  exact ⟨hD, hS, by cases S <;> simp, rfl⟩
+
+theorem Iter.new_simF_none (S : List Nat) : (Iter.new S none).SimF S := rfl
+
+/-- `Iter::new_bidirectional(S, Some(D))` owes the values of `D` that are not in `S` -/
+theorem Iter.newBidirectional_sim {S D : List Nat} (hS : Asc S) (hD : Asc D) :
+    (Iter.newBidirectional S (some D)).Sim (D.filter (fun x => decide (x ∉ S))) := by
+  simp only [Iter.newBidirectional, Iter.Sim, Iter.SimF, popFront, popBack, pend_newBidirectional]
+  refine ⟨⟨hD, hS, by cases S <;> simp, rfl⟩, fun _ h => ?_⟩
+  rw [List.getLast?_eq_none_iff] at h
+  rw [h]; rfl
+
+theorem Iter.newBidirectional_sim_none (S : List Nat) :
+    (Iter.newBidirectional S none).Sim S := ⟨rfl, by simp [Iter.newBidirectional]⟩
+
+/-! ### `take`, `rev().take`, exhaustion -/
+
+theorem Iter.take_simF (k : Nat) {it : Iter} {L : List Nat} (h : it.SimF L) :
+    Iter.take k it = L.take k := by
+  induction k generalizing it L with
+  | zero => rfl
+  | succ k ih =>
+    obtain ⟨h1, h2, _⟩ := Iter.next_simF h
+    unfold Iter.take
+    cases L with
+    | nil =>
+      have : it.next = (none, it.next.2) := Prod.ext h1 rfl
+      rw [this]; rfl
+    | cons x t =>
+      have : it.next = (some x, it.next.2) := Prod.ext h1 rfl
+      rw [this]
+      simp only [List.take_succ_cons]
+      rw [ih h2]; rfl
+
+theorem Iter.takeBack_sim (k : Nat) {it : Iter} {L : List Nat} (h : it.Sim L) :
+    Iter.takeBack k it = L.reverse.take k := by
+  induction k generalizing it L with
+  | zero => rfl
+  | succ k ih =>
+    obtain ⟨h1, h2⟩ := Iter.nextBack_sim h
+    unfold Iter.takeBack
+    cases hl : L.getLast? with
+    | none =>
+      rw [List.getLast?_eq_none_iff] at hl; subst hl
+      have : it.nextBack = (none, it.nextBack.2) := Prod.ext h1 rfl
+      rw [this]; rfl
+    | some x =>
+      have : it.nextBack = (some x, it.nextBack.2) := Prod.ext (h1.trans hl) rfl
+      rw [this]
+      simp only
+      rw [ih h2]
+      have hL := dropLast_append_of_getLast? hl
+      conv => rhs; rw [← hL]
+      simp
+
+theorem Iter.afterNexts_simF (k : Nat) {it : Iter} {L : List Nat} (h : it.SimF L) :
+    (Iter.afterNexts k it).SimF (L.drop k) := by
+  induction k generalizing it L with
+  | zero => exact h
+  | succ k ih =>
+    have := ih (Iter.next_simF h).2.1
+    simpa [Iter.afterNexts, List.drop_tail] using this
+
+/-- once all members have been delivered, `next` returns `None` (and keeps doing so) -/
+theorem Iter.next_exhausted (k : Nat) {it : Iter} {L : List Nat} (h : it.SimF L)
+    (hk : L.length ≤ k) : (Iter.afterNexts k it).next.1 = none := by
+  rw [(Iter.next_simF (Iter.afterNexts_simF k h)).1, List.drop_eq_nil_of_le hk]; rfl
+
+/-! ### arbitrary interleavings of `next` / `next_back` -/
+
+/-- the reference double-ended queue: `next` pops the head, `next_back` pops the last -/
+def dequeRun : List Bool → List Nat → List (Bool × Option Nat)
+  | [], _ => []
+  | true :: r, L => (true, L.head?) :: dequeRun r L.tail
+  | false :: r, L => (false, L.getLast?) :: dequeRun r L.dropLast
+
+/-- what the reference queue still holds after the schedule -/
+def dequeRest : List Bool → List Nat → List Nat
+  | [], L => L
+  | true :: r, L => dequeRest r L.tail
+  | false :: r, L => dequeRest r L.dropLast
+
+/-- the values returned by the `next` calls, in call order -/
+def fronts (o : List (Bool × Option Nat)) : List Nat :=
+  o.filterMap (fun p => if p.1 then p.2 else none)
+/-- the values returned by the `next_back` calls, in call order -/
+def backs (o : List (Bool × Option Nat)) : List Nat :=
+  o.filterMap (fun p => if p.1 then none else p.2)
+
+theorem Iter.runSchedule_sim (sched : List Bool) {it : Iter} {L : List Nat} (h : it.Sim L) :
+    it.runSchedule sched = dequeRun sched L := by
+  induction sched generalizing it L with
+  | nil => rfl
+  | cons b r ih =>
+    cases b with
+    | true =>
+      obtain ⟨h1, h2⟩ := Iter.next_sim h
+      simp only [Iter.runSchedule, dequeRun, h1, ih h2]
+    | false =>
+      obtain ⟨h1, h2⟩ := Iter.nextBack_sim h
+      simp only [Iter.runSchedule, dequeRun, h1, ih h2]
+
+theorem dequeRun_calls (sched : List Bool) (L : List Nat) :
+    (dequeRun sched L).map (·.1) = sched := by
+  induction sched generalizing L with
+  | nil => rfl
+  | cons b r ih => cases b <;> simp [dequeRun, ih]
+
+theorem dequeRun_split (sched : List Bool) (L : List Nat) :
+    fronts (dequeRun sched L) ++ dequeRest sched L ++ (backs (dequeRun sched L)).reverse = L := by
+  induction sched generalizing L with
+  | nil => simp [dequeRun, dequeRest, fronts, backs]
+  | cons b r ih =>
+    cases b with
+    | true =>
+      cases L with
+      | nil => simpa [dequeRun, dequeRest, fronts, backs] using ih []
+      | cons x t => simpa [dequeRun, dequeRest, fronts, backs] using ih t
+    | false =>
+      cases hl : L.getLast? with
+      | none =>
+        rw [List.getLast?_eq_none_iff] at hl; subst hl
+        simpa [dequeRun, dequeRest, fronts, backs] using ih []
+      | some x =>
+        have hL := dropLast_append_of_getLast? hl
+        have := ih L.dropLast
+        simp only [dequeRun, dequeRest, fronts, backs, hl, List.filterMap_cons,
+          Bool.false_eq_true, if_false, List.reverse_cons] at this ⊢
+        rw [← List.append_assoc, this, hL]
+
+/-- call number `i` delivers a value iff `i <` the number of members: the first
+`min |sched| |L|` calls return `Some`, all later ones `None` -/
+theorem dequeRun_isSome (sched : List Bool) (L : List Nat) :
+    (dequeRun sched L).map (fun p => p.2.isSome) =
+      List.replicate (min sched.length L.length) true ++
+        List.replicate (sched.length - L.length) false := by
+  induction sched generalizing L with
+  | nil => simp [dequeRun]
+  | cons b r ih =>
+    cases b with
+    | true =>
+      cases L with
+      | nil => simpa [dequeRun, List.replicate_succ] using ih []
+      | cons x t =>
+        simp only [dequeRun, List.map_cons, ih t, List.head?_cons, Option.isSome_some,
+          List.tail_cons, List.length_cons, Nat.add_sub_add_right, Nat.add_min_add_right,
+          List.replicate_succ, List.cons_append]
+    | false =>
+      cases hl : L.getLast? with
+      | none =>
+        rw [List.getLast?_eq_none_iff] at hl; subst hl
+        simpa [dequeRun, List.replicate_succ] using ih []
+      | some x =>
+        have hL := dropLast_append_of_getLast? hl
+        have hlen : L.length = L.dropLast.length + 1 := by
+          conv => lhs; rw [← hL]
+          simp
+        simp only [dequeRun, List.map_cons, ih L.dropLast, hl, Option.isSome_some,
+          List.length_cons]
+        rw [hlen, Nat.add_sub_add_right, Nat.add_min_add_right, List.replicate_succ]
+        simp
+
 end FontVerif.IntSet
